@@ -20,6 +20,7 @@ package main
 // the doc comment that says so); the spare-capacity half has no exemption for serialisers.
 import (
 	"bytes"
+	"crypto/sha256"
 	"fmt"
 	"reflect"
 	"sort"
@@ -210,6 +211,43 @@ func histKeyTypes(val interface{}) (string, bool) {
 	return "", false
 }
 
+// histDerived: for values with Hash()/Base32Address(), a checker that compares them with SHA-256 of the given
+// (current) serialisation; returns "" when consistent.
+func histDerived(root reflect.Value) func(cur []byte) string {
+	hm, am := root.MethodByName("Hash"), root.MethodByName("Base32Address")
+	if !hm.IsValid() && !am.IsValid() {
+		return nil
+	}
+	return func(cur []byte) (msg string) {
+		defer func() {
+			if recover() != nil {
+				msg = ""
+			}
+		}()
+		want := sha256.Sum256(cur)
+		if hm.IsValid() && hm.Type().NumIn() == 0 && hm.Type().NumOut() == 2 {
+			r := hm.Call(nil)
+			if r[1].IsNil() && r[0].Kind() == reflect.Array && r[0].Len() == 32 {
+				var got [32]byte
+				reflect.Copy(reflect.ValueOf(&got).Elem(), r[0])
+				if got != want {
+					return "Hash() is not SHA-256 of the value's current serialisation"
+				}
+			}
+		}
+		if am.IsValid() && am.Type().NumIn() == 0 && am.Type().NumOut() == 2 {
+			r := am.Call(nil)
+			if r[1].IsNil() && r[0].Kind() == reflect.String {
+				exp := strings.ToLower(strings.TrimRight(i2pB32.EncodeToString(want[:]), "=")) + ".b32.i2p"
+				if r[0].String() != exp {
+					return "Base32Address() is not the address of the value's current serialisation"
+				}
+			}
+		}
+		return ""
+	}
+}
+
 func init() {
 	reg("!history", func(a []string) (string, []Fail) {
 		w, aux := unhx(a[1]), 0
@@ -253,7 +291,14 @@ func init() {
 			callAllMethods(s.v.Interface())
 		}
 		if !same() {
-			for _, p := range []string{"C01", "C18", "C07"} {
+			h1 := []string{"C01", "C02", "C07", "C18"}
+			if kind == "mapping" {
+				h1 = append(h1, "C11")
+			}
+			if has && verified0 {
+				h1 = append(h1, "C06")
+			}
+			for _, p := range h1 {
 				add(p, "history:queries-change-serialisation:"+kind, "the serialisation of a %s differs after its argument-free methods ran once", a[0])
 			}
 			s, _ := ser()
@@ -301,6 +346,12 @@ func init() {
 					c08 := []string{"C01", "C18"}
 					if c08Kinds[kind] {
 						c08 = []string{"C08", "C01", "C18"}
+					}
+					if kind == "mapping" {
+						c08 = append(c08, "C11")
+					}
+					if has && verified0 {
+						c08 = append(c08, "C06")
 					}
 					// (a) what an append by the caller would write into
 					if spare := b[len(b):cap(b)]; len(spare) > 0 {
@@ -359,11 +410,16 @@ func init() {
 			}
 		}
 
-		// ---- H3: verification after an edit through an accessor's result
+		// ---- H3: edits through what the caller can reach — the exported fields of the value itself and of the
+		//      structures its accessors hand out. After each single edit:
+		//      E1 (C05) verification may only succeed while the serialisation is still the signed one;
+		//      E2 (C07) hash and address are those of the value's CURRENT serialisation (no stale memo);
+		//      E3 (C10/C18/C09) a value parsed afresh from the same bytes is unaffected (no state shared between values).
 		edits := 0
-		if has && verified0 {
+		{
 			var handles []histHandle
 			ptrSeen := map[uintptr]bool{}
+			collectByteFields("value", root, 0, &handles, ptrSeen)
 			t := root.Type()
 			for i := 0; i < t.NumMethod(); i++ {
 				m := t.Method(i)
@@ -384,18 +440,39 @@ func init() {
 				}()
 			}
 			sort.SliceStable(handles, func(i, j int) bool { return handles[i].name < handles[j].name })
+			derived := histDerived(root) // nil when the kind has no hash/address
 			for _, h := range handles {
 				h.b[len(h.b)-1] ^= 0x01
 				edits++
-				_, still := verifySucceeds(val)
-				changed := !same()
-				h.b[len(h.b)-1] ^= 0x01
-				if still && changed {
-					add("C05", "history:verify-after-edit:"+kind, "verification of a %s still succeeds after %s was edited through the accessor's result and the serialisation changed: the bytes it vouches for were never signed", a[0], h.name)
+				cur, curOK := ser()
+				changed := !curOK || !bytes.Equal(cur, ser0)
+				if has && verified0 {
+					if _, still := verifySucceeds(val); still && changed {
+						add("C05", "history:verify-after-edit:"+kind, "verification of a %s still succeeds after %s was edited and the serialisation changed: the bytes it vouches for were never signed", a[0], h.name)
+					}
 				}
+				if derived != nil && curOK {
+					if msg := derived(cur); msg != "" {
+						add("C07", "history:stale-derived:"+kind, "after %s was edited, %s", h.name, msg)
+					}
+				}
+				if fresh, _, _ := c18Build(a[0], append([]byte{}, w0...), aux); fresh != nil {
+					if fs := histSerialiser(reflect.ValueOf(fresh)); fs != nil {
+						fb, fok := fs()
+						ft, _ := histKeyTypes(fresh)
+						if !fok || !bytes.Equal(fb, ser0) || (haveTypes && ft != types0) {
+							for _, p := range []string{"C10", "C18", "C09", "C01"} {
+								add(p, "history:edit-leaks-into-other-values:"+kind, "after %s of one %s was edited, a value parsed afresh from the same bytes differs (key types %s, before %s)", h.name, a[0], ft, types0)
+							}
+						}
+					}
+				}
+				h.b[len(h.b)-1] ^= 0x01
 			}
-			if _, again := verifySucceeds(val); !again {
-				count("history:verify-not-restored:" + kind)
+			if has && verified0 {
+				if _, again := verifySucceeds(val); !again {
+					count("history:verify-not-restored:" + kind)
+				}
 			}
 		}
 		counters["history:result-slices-overwritten"] += calls
